@@ -851,15 +851,36 @@ func c01Completeness(c *an.Ctx) {
 				return
 			}
 			nKey++
-			okV := false
-			switch v := st.Val.(type) {
-			case *ssa.UnOp:
-				if f2, ok := v.X.(*ssa.FieldAddr); ok && an.FieldVar(f2) != nil && an.FieldVar(f2).Name() == "key" {
-					okV = true
+			isStoredKey := func(v ssa.Value) bool {
+				switch v := v.(type) {
+				case *ssa.UnOp:
+					if f2, ok := v.X.(*ssa.FieldAddr); ok && an.FieldVar(f2) != nil && an.FieldVar(f2).Name() == "key" {
+						return true
+					}
+				case *ssa.Field:
+					if stt, ok := v.X.Type().Underlying().(*types.Struct); ok && stt.Field(v.Field).Name() == "key" {
+						return true
+					}
 				}
-			case *ssa.Field:
-				if stt, ok := v.X.Type().Underlying().(*types.Struct); ok && stt.Field(v.Field).Name() == "key" {
-					okV = true
+				return false
+			}
+			okV := isStoredKey(st.Val)
+			// a private builder of the datum (nameMatch(name)) receives the key as a parameter: then every caller
+			// must pass the stored key
+			if prm, isP := st.Val.(*ssa.Parameter); isP && !okV && !token.IsExported(fn.Name()) {
+				idx := -1
+				for i, p2 := range fn.Params {
+					if p2 == prm {
+						idx = i
+					}
+				}
+				sites := c.P.CallSites(func(x ssa.Instruction) bool { return an.IsCallTo(x, fn) })
+				okV = idx >= 0 && len(sites) > 0
+				for _, cs := range sites {
+					args := cs.Call.Common().Args
+					if idx >= len(args) || !isStoredKey(args[idx]) {
+						okV = false
+					}
 				}
 			}
 			c.Check(okV, "R8", fmt.Sprintf("match datum key #%d in %s is the stored (received) key", nKey, an.RelName(fn)), in.Pos(), tempName.ReplaceAllString(an.Expr(st.Val), ""),
